@@ -57,22 +57,23 @@ class Mac(object):
 
     def parse_line(self, line, **kwargs):
 
-        def _sub_mac(line, mac):
+        def _sub_mac(match):
+            mac = match.group(1)
+            if any(re.search(_i, mac, re.I) for _i in self._ignore_list):
+                return mac
             new_mac = self._mac2db(mac)
             if new_mac:
                 logger.debug("Obfuscating MAC Addr - %s > %s", mac, new_mac)
-                return line.replace(mac, new_mac)
+                return new_mac
             # it's an obfuscated MAC address
-            return line
+            return mac
 
         if not line:
             return line
 
-        for mac in re.findall(self.pattern, line, re.I):
-            if not any(re.search(_i, mac[0], re.I) for _i in self._ignore_list):
-                line = _sub_mac(line, mac[0])
-
-        return line
+        # substitute every match in place, in a single pass: a chained
+        # str.replace would also rewrite the substitutes just put into the line
+        return re.sub(self.pattern, _sub_mac, line, flags=re.I)
 
     def mapping(self):
         mapping = []
